@@ -44,6 +44,7 @@ type World struct {
 	Secrets       []Secret
 	ConfigMaps    [][2]string // ns, name
 	Authz         []Authz
+	MeshPkp       int // meshConfig.DefaultConfig.PrivateKeyProvider: 0 none, 1 cryptomb, 2 qat
 }
 
 func (w *World) find(cl, ns, name string) *Secret {
@@ -138,10 +139,24 @@ func (m *fakeMC) ForCluster(c cluster.ID) (credscontroller.Controller, error) {
 }
 func (m *fakeMC) AddSecretHandler(func(k kind.Kind, name, namespace string)) {}
 
+func pkpConfig(k int) *meshconfig.PrivateKeyProvider {
+	switch k {
+	case 1:
+		return &meshconfig.PrivateKeyProvider{Provider: &meshconfig.PrivateKeyProvider_Cryptomb{Cryptomb: &meshconfig.PrivateKeyProvider_CryptoMb{
+			PollDelay: &durationpb.Duration{Nanos: 10000}}}}
+	case 2:
+		return &meshconfig.PrivateKeyProvider{Provider: &meshconfig.PrivateKeyProvider_Qat{Qat: &meshconfig.PrivateKeyProvider_QAT{
+			PollDelay: &durationpb.Duration{Nanos: 20000}}}}
+	}
+	return nil
+}
+
 func newSecretGen(w *World) (*xds.SecretGen, model.XdsCache, *fakeMC) {
 	mc := newFakeMC(w)
 	cache := model.NewXdsCache()
-	return xds.NewSecretGen(mc, cache, cluster.ID(w.ConfigCluster), mesh.DefaultMeshConfig()), cache, mc
+	mcfg := mesh.DefaultMeshConfig()
+	mcfg.DefaultConfig.PrivateKeyProvider = pkpConfig(w.MeshPkp)
+	return xds.NewSecretGen(mc, cache, cluster.ID(w.ConfigCluster), mcfg), cache, mc
 }
 
 // ---------------------------------------------------------------- proxies
@@ -151,7 +166,7 @@ type Ident struct{ Td, Ns, Sa string }
 type Proxy struct {
 	Verified *Ident
 	Cluster  string
-	Pkp      int       // 0 none, 1 cryptomb, 2 qat
+	Cfg      *int      // Metadata.ProxyConfig: nil = not sent; else its private key provider: 0 none, 1 cryptomb, 2 qat
 	PkpHash  string    // filled from the real cache key
 	Refs     *[]string // nil = no MergedGateway
 }
@@ -166,15 +181,8 @@ func (p *Proxy) real() *model.Proxy {
 		mp.VerifiedIdentity = &spiffe.Identity{TrustDomain: p.Verified.Td, Namespace: p.Verified.Ns, ServiceAccount: p.Verified.Sa}
 		mp.ConfigNamespace = p.Verified.Ns
 	}
-	switch p.Pkp {
-	case 1:
-		mp.Metadata.ProxyConfig = &model.NodeMetaProxyConfig{PrivateKeyProvider: &meshconfig.PrivateKeyProvider{
-			Provider: &meshconfig.PrivateKeyProvider_Cryptomb{Cryptomb: &meshconfig.PrivateKeyProvider_CryptoMb{
-				PollDelay: &durationpb.Duration{Nanos: 10000}}}}}
-	case 2:
-		mp.Metadata.ProxyConfig = &model.NodeMetaProxyConfig{PrivateKeyProvider: &meshconfig.PrivateKeyProvider{
-			Provider: &meshconfig.PrivateKeyProvider_Qat{Qat: &meshconfig.PrivateKeyProvider_QAT{
-				PollDelay: &durationpb.Duration{Nanos: 20000}}}}}
+	if p.Cfg != nil {
+		mp.Metadata.ProxyConfig = &model.NodeMetaProxyConfig{PrivateKeyProvider: pkpConfig(*p.Cfg)}
 	}
 	if p.Refs != nil {
 		mp.MergedGateway = &model.MergedGateway{VerifiedCertificateReferences: sets.New(*p.Refs...)}
@@ -184,8 +192,8 @@ func (p *Proxy) real() *model.Proxy {
 
 // pkpHash asks the real parseResources for the cache-key suffix of a proxy's private-key-provider
 // configuration (an xxhash of the proto text; the model treats it as an opaque "/"-free token).
-func pkpHash(gen *xds.SecretGen, pkp int) string {
-	p := Proxy{Verified: &Ident{"td", "probe", "probe"}, Cluster: "probe", Pkp: pkp}
+func pkpHash(gen *xds.SecretGen, cfg *int) string {
+	p := Proxy{Verified: &Ident{"td", "probe", "probe"}, Cluster: "probe", Cfg: cfg}
 	rs := xds.VerifC11ParseResources(gen, []string{"kubernetes://probe"}, p.real())
 	k := rs[0].CacheKey
 	return k[strings.LastIndex(k, "/")+1:]
@@ -245,7 +253,8 @@ type Op struct {
 
 type Entry struct {
 	Name string
-	TLS  bool   // carries private key material
+	TLS  bool // carries private key material
+	Fmt  int  // where the key sits: 0 inline, 1 cryptomb provider, 2 qat provider
 	Src  [3]string
 }
 
@@ -304,12 +313,14 @@ func decodeOne(r *discovery.Resource) (Entry, error) {
 				return e, err
 			}
 			key = m.GetPrivateKey().GetInlineBytes()
+			e.Fmt = 1
 		case "qat":
 			m := &qat.QatPrivateKeyMethodConfig{}
 			if err := pkp.GetTypedConfig().UnmarshalTo(m); err != nil {
 				return e, err
 			}
 			key = m.GetPrivateKey().GetInlineBytes()
+			e.Fmt = 2
 		default:
 			return e, fmt.Errorf("unknown private key provider %q", pkp.ProviderName)
 		}
@@ -351,7 +362,8 @@ func (w *World) term() string {
 			return vlib.App("Build_secret", S(s.Cluster), S(s.Ns), S(s.Name), vlib.B(s.TLS), vlib.B(s.CA))
 		}),
 		vlib.ListOf(w.ConfigMaps, func(c [2]string) string { return vlib.Pair(S(c[0]), S(c[1])) }),
-		vlib.ListOf(w.Authz, func(a Authz) string { return "(" + S(a.Cluster) + ", " + S(a.Ns) + ", " + S(a.Sa) + ")" }))
+		vlib.ListOf(w.Authz, func(a Authz) string { return "(" + S(a.Cluster) + ", " + S(a.Ns) + ", " + S(a.Sa) + ")" }),
+		vlib.NI(w.MeshPkp))
 }
 
 func identTerm(i *Ident) string {
@@ -366,7 +378,11 @@ func (p *Proxy) term() string {
 	if p.Refs != nil {
 		refs = "(Some " + strList(*p.Refs) + ")"
 	}
-	return vlib.App("Build_proxy", identTerm(p.Verified), S(p.Cluster), S(p.PkpHash), refs)
+	cfg := "None"
+	if p.Cfg != nil {
+		cfg = "(Some " + vlib.NI(*p.Cfg) + ")"
+	}
+	return vlib.App("Build_proxy", identTerm(p.Verified), S(p.Cluster), cfg, S(p.PkpHash), refs)
 }
 
 func ckeyTerm(k CKey) string { return vlib.App("Build_ckey", vlib.B(k.CM), S(k.Name), S(k.Ns)) }
@@ -394,11 +410,10 @@ func (o Op) term() string {
 func srcTerm(s [3]string) string { return "(" + S(s[0]) + ", " + S(s[1]) + ", " + S(s[2]) + ")" }
 
 func entryTerm(e Entry) string {
-	ctor := "CCa"
 	if e.TLS {
-		ctor = "CTls"
+		return vlib.Pair(S(e.Name), vlib.App("CTls", srcTerm(e.Src), vlib.NI(e.Fmt)))
 	}
-	return vlib.Pair(S(e.Name), vlib.App(ctor, srcTerm(e.Src)))
+	return vlib.Pair(S(e.Name), vlib.App("CCa", srcTerm(e.Src)))
 }
 
 var rtypeNames = map[string]string{"kubernetes": "TKube", "configmap": "TConfigMap", "kubernetes-gateway": "TGateway", "invalid": "TInvalid"}
